@@ -108,6 +108,54 @@ def check_parse(ctx, d, direction, how):
 			what = "parser reads an accepted datagram differently from the layout: %s" % ",".join(bad))
 
 
+class IfProbe:
+	""" The same datagrams through the real DATAInterface.recv_tx_msg()/recv_rx_msg() on vnet:
+	    accepted iff the layout gives them a reading with the negotiated version, fields per layout. """
+
+	def __init__(self):
+		from vf import sim
+		self.world = sim.World(0)
+		self.ep = self.world.net.endpoint("127.0.0.1", 7302)
+		self.dif = sim.transceiver.DATAInterface("127.0.0.1", 7302, "127.0.0.1", 7202)
+
+	def check(self, ctx, d, direction, ver):
+		if not self.dif.set_hdr_ver(ver):
+			return
+		self.ep.sendto(d, ("127.0.0.1", 7202))
+		try:
+			got = self.dif.recv_tx_msg() if direction == "tx" else self.dif.recv_rx_msg()
+		except Exception as e:
+			ctx.count("data_if_raised")     # C14's business
+			return
+		ctx.count("data_if_reads")
+		try:
+			ref = trxd.decode(d[:512], direction)
+		except ValueError:
+			ref = None
+		if got is None or got is False:
+			ctx.count("data_if_dropped")
+			return
+		ctx.count("data_if_accepted")
+		if ref is None or ref["ver"] != ver:
+			ctx.violation("data-if", {"datagram": d[:24].hex(), "len": len(d), "direction": direction, "negotiated_version": ver},
+				what = "DATAInterface hands up a datagram that %s" % ("the layout gives no reading for" if ref is None
+					else "carries header version %d while %d was negotiated" % (ref["ver"], ver)))
+			return
+		g = msgs.from_real(got)
+		if g["dir"] != direction:
+			ctx.violation("data-if", {"datagram": d[:24].hex(), "direction": direction},
+				what = "DATAInterface returns a %s message from its %s receive path" % (g["dir"], direction))
+			return
+		bad = [k for k in ("fn", "tn") + (("pwr",) if direction == "tx" else ("rssi", "toa256")) if g[k] != ref[k]]
+		if not ref.get("partial"):
+			k = "bits" if direction == "tx" else "soft"
+			if g[k] != ref.get(k):
+				bad.append(k)
+		if bad:
+			ctx.violation("data-if", {"datagram": d[:24].hex(), "len": len(d), "direction": direction},
+				what = "DATAInterface reads a datagram differently from the layout: %s" % ",".join(bad))
+
+
 # ---- (c)+(d) cross-language: real trx_if.c -----------------------------------
 
 def c_cases(ctx, r, n_cases, per_case):
@@ -242,6 +290,7 @@ def run(ctx):
 		m = trxd.rand_rx(r, ver = 1, nope = False, mod = mod)
 		m["tsc_set"], m["tsc"] = s, t
 		check_encode(ctx, m, False)
+	ifp = IfProbe()
 	for k in range(ctx.scale(20000, 2000000)):
 		m = trxd.rand_msg(r)
 		d = trxd.encode(m, r.random() < 0.5)
@@ -255,7 +304,10 @@ def run(ctx):
 		elif x < 0.85:
 			d = r.randbytes(r.choice((0, 1, 4, 5, 6, 8, 11, 154, 156, 159, 452)))
 			how = "random"
-		check_parse(ctx, d, m["dir"] if r.random() < 0.9 else ("rx" if m["dir"] == "tx" else "tx"), how)
+		direction = m["dir"] if r.random() < 0.9 else ("rx" if m["dir"] == "tx" else "tx")
+		check_parse(ctx, d, direction, how)
+		if k % 4 == 0 and len(d) <= 512:
+			ifp.check(ctx, d, direction, r.choice((0, 1)))
 		if ctx.too_many():
 			return
 	bd = cbuild.BuildDir("c04")
@@ -277,6 +329,8 @@ def run(ctx):
 	ctx.require("parser_rejected", 500)
 	ctx.require("c_bursts_indicated", 500)
 	ctx.require("c_requests_sent", 500)
+	ctx.require("data_if_accepted", 300)
+	ctx.require("data_if_dropped", 300)
 
 
 def replay(ctx, data):
